@@ -289,18 +289,7 @@ func runC09(c *eng.Ctx) {
 	// ---- 6/7. flush ordering ---------------------------------------------------------------------------------------
 	c.Rule("ORDER", mmT+".Flush{counters<dictionaries}", func() { metaFlushCountersFirst(c) })
 	c.Rule("ORDER", midT+".Flush{postings<series-dictionary}", func() { indexFlushSeriesLast(c) })
-	for _, h := range []string{"tsdb/memdb.metadataDatabase.handle", "tsdb/memdb.indexDatabase.handle"} {
-		h := h
-		c.Rule("ORDER", h+"{prepare<flush}", func() {
-			f := c.Fn(h)
-			gos := c.Some(f, func(p *eng.Prog, in ssa.Instruction) bool { _, ok := in.(*ssa.Go); return ok }, "go handleFlush")
-			prep := c.Some(f, invokeOn("", "PrepareFlush"), "PrepareFlush()")
-			for i, g := range gos {
-				c.Check(eng.DominatedBy(f, g.Instr, prep, nil), fmt.Sprintf("prepare<go-flush[%d]", i), g.Instr, f,
-					"the stores are switched (PrepareFlush) on the event goroutine before the background flush starts", "go handleFlush reachable without PrepareFlush")
-			}
-		})
-	}
+	eventLoopPreparesBeforeFlush(c)
 
 	// ---- 8/9. prepare-flush guard and flush commit order, four stores (shared with C10) ----------------------------
 	flushLifecycleRules(c)
@@ -1089,4 +1078,22 @@ func dictionaryKeysOwnTheirMemory(c *eng.Ctx) {
 		}
 		c.Check(n >= 1, "string-keyed-inserts-found", nil, nil, "the dictionaries insert string keys", fmt.Sprintf("%d", n))
 	})
+}
+
+// eventLoopPreparesBeforeFlush (shared by C09 and C07): the memdb event loops switch their stores to a new flush generation
+// (PrepareFlush) on the event goroutine itself, before the background flush goroutine is started - the switch is then
+// serialised with the rows the same loop handles.
+func eventLoopPreparesBeforeFlush(c *eng.Ctx) {
+	for _, h := range []string{"tsdb/memdb.metadataDatabase.handle", "tsdb/memdb.indexDatabase.handle"} {
+		h := h
+		c.Rule("ORDER", h+"{prepare<flush}", func() {
+			f := c.Fn(h)
+			gos := c.Some(f, func(p *eng.Prog, in ssa.Instruction) bool { _, ok := in.(*ssa.Go); return ok }, "go handleFlush")
+			prep := c.Some(f, invokeOn("", "PrepareFlush"), "PrepareFlush()")
+			for i, g := range gos {
+				c.Check(eng.DominatedBy(f, g.Instr, prep, nil), fmt.Sprintf("prepare<go-flush[%d]", i), g.Instr, f,
+					"the stores are switched (PrepareFlush) on the event goroutine before the background flush starts", "go handleFlush reachable without PrepareFlush")
+			}
+		})
+	}
 }
